@@ -253,12 +253,13 @@ def locate(src, path):
         end = None
         body_open = None
         pdepth = 0
+        semi_item = _norm(comp).split(' ')[0] in ('const', 'static', 'type')
         while i < hi:
             if src.is_code(i):
                 ch = t[i]
-                if ch in '([':
+                if ch in '([' or (semi_item and ch == '{'):
                     pdepth += 1
-                elif ch in ')]':
+                elif ch in ')]' or (semi_item and ch == '}'):
                     pdepth -= 1
                 elif ch == '{' and pdepth == 0:
                     body_open = i
